@@ -377,6 +377,13 @@ pub fn explore(prop: &Prop, tier: Tier, seed: u64) -> Outcome {
                 let res = runner.run(&strat, |bytes| {
                     let mut stats = stats_cell.borrow_mut();
                     let mut first_fail = first_cell.borrow_mut();
+                    // a failure that is a time-out is not shrunk: every attempt would cost the
+                    // whole time limit again
+                    if let Some((sig, _)) = first_fail.as_ref() {
+                        if sig.contains("timeout") {
+                            return Ok(());
+                        }
+                    }
                     *watch.slots[part].lock().unwrap() = Some((Instant::now(), bytes.clone()));
                     let verdict = run_case(prop, &bytes, &ctx);
                     *watch.slots[part].lock().unwrap() = None;
